@@ -615,6 +615,12 @@ func (g *gen) edits(r *hx.Rng, kind string, sd *suiteDef, signed map[string]inte
 			continue
 		}
 
+		// two positions of one array: exchanging elements of a set (a string and a {"id": ...} reference under an
+		// @id-typed term are the same node) is a reordering, not a change of content
+		if divergeAtIndex(a.p, b.p) {
+			continue
+		}
+
 		add("move "+a.p.String()+" "+b.p.String(), "must-reject", func(d map[string]interface{}) bool {
 			set(d, a.p, vb)
 			set(d, b.p, va)
@@ -1238,4 +1244,18 @@ func replay(w *world, tr *hx.Trace, f string) {
 
 	fmt.Fprintln(os.Stderr, "c07: replay case not found")
 	os.Exit(2)
+}
+
+// divergeAtIndex reports whether two paths separate at an array index (they lie in the same array).
+func divergeAtIndex(a, b path) bool {
+	for i := 0; i < len(a) && i < len(b); i++ {
+		if a[i] != b[i] {
+			_, ia := a[i].(int)
+			_, ib := b[i].(int)
+
+			return ia && ib
+		}
+	}
+
+	return false
 }
